@@ -102,7 +102,8 @@ def lab_compare(prog, mac, res):
 
 # ----------------------------------------------------------------------------- end to end
 
-POOL = ["Ca", "Cb", "Cc", "Cd", "Cab", "Caba", "Ca_", "_Cb", "C__c"]
+POOL = ["Ca", "Cb", "Cc", "Cd", "Cab", "Caba", "Ca_", "_Cb", "C__c", "UIState", "AABB", "Vec2D"]
+ODD_NAMES = ("Ca_", "_Cb", "C__c", "UIState", "AABB", "Vec2D")
 PRELUDE = """#![forbid(unsafe_code)]
 #![allow(warnings)]
 use gecs::prelude::*;
@@ -248,8 +249,8 @@ def match_enum(tier, seed):
     # quick: all pairs of archetypes x lists of two parameters; three archetypes x single parameters;
     # component names that are prefixes of each other
     # "mixed": even-numbered archetypes declare their columns in reverse pool order
-    confs = ([("Pool3", 2, 2, "mixed"), ("Pool3", 3, 1, "canon"), ("PoolP", 2, 1, "canon"), ("PoolS", 2, 1, "mixed")] if tier == "quick"
-             else [("Pool3", 3, 2, "mixed"), ("Pool3", 2, 2, "canon"), ("Pool4", 2, 2, "mixed"), ("PoolP", 2, 2, "canon"), ("PoolS", 2, 2, "mixed")])
+    confs = ([("Pool3", 2, 2, "mixed"), ("Pool3", 3, 1, "canon"), ("PoolP", 2, 1, "canon"), ("PoolS", 2, 1, "mixed"), ("PoolT", 2, 1, "mixed")] if tier == "quick"
+             else [("Pool3", 3, 2, "mixed"), ("Pool3", 2, 2, "canon"), ("Pool4", 2, 2, "mixed"), ("PoolP", 2, 2, "canon"), ("PoolS", 2, 2, "mixed"), ("PoolT", 2, 2, "mixed")])
     progs, states, trans = [], 0, 0
     for pool, ma, mp, order in confs:
         items, st = tlc_lines("MatchMC", "SPECIFICATION Spec\nCONSTANTS\n  PoolSeq <- %s\n  MaxArch = %d\n  MaxParams = %d\n  ColOrder = \"%s\"\nINVARIANTS Sound Complete Export\nCHECK_DEADLOCK FALSE\n" % (pool, ma, mp, order), "PROG")
@@ -296,8 +297,9 @@ def match_enum(tier, seed):
     n_ok = 8 if tier == "quick" else 24
     chosen = decl_keys[:n_decl]
     # every spelling class of component identifiers is compiled and run, not only enumerated
-    odd = [dk for dk in decl_keys if '_' in dk and len(json.loads(dk)) >= 2 and dk not in chosen]
-    chosen += odd[:2 if tier == "quick" else 8]
+    for fam in (("Ca_", "_Cb", "C__c"), ("UIState", "AABB", "Vec2D")):
+        odd = [dk for dk in decl_keys if all(('"%s"' % nm) in dk for nm in fam) and len(json.loads(dk)) >= 2 and dk not in chosen]
+        chosen += odd[:2 if tier == "quick" else 8]
     jobs = []
     err_jobs = []
     for dk in chosen:
